@@ -73,6 +73,7 @@ const (
 	kInPlace     = "K-C06-1"
 	kSpareAppend = "K-C06-2"
 	kParenText   = "K-C02-1"
+	kParamRetype = "K-C05-2"
 )
 
 type outcome struct {
@@ -183,6 +184,13 @@ func check(c Case, noExclude bool) (outcome, error) {
 	got := s.Out.String()
 	if err != nil && sess.TimedOut(sess.Res{Errs: []string{err.Error()}}) {
 		o.skipped = "deadline"
+		return o, nil
+	}
+	if err != nil && !noExclude && pbt.KnownOpen(kParamRetype) && strings.Contains(err.Error(), "register assignment of non integer") &&
+		(strings.Contains(in.Out.String(), ref.ErrMark) || strings.HasPrefix(in.Out.String(), got)) { // what was printed before it is still checked
+		// the generator steers around it by the types it tracks, but what a name holds also depends on the order of
+		// calls (a function re-typing a global): the message comes from one site only, which is the listed finding
+		o.skipped, o.finding = "non-integer assigned to an integer parameter", kParamRetype
 		return o, nil
 	}
 	o.failed = want.Failed
